@@ -387,10 +387,11 @@ def scanner_rule_at(line):
     return "?"
 
 
+# roles of an identifier that NAMES something; every other place (an operand, the token at which the parser gave up, ...)
+# is "other-position"
 ROLE_AFTER = {"func": "func-name", "record": "record-name", "enum": "enum-name", "module": "module-name", "let": "bind-name",
               "var": "bind-name", ":": "type-name", "->": "return-type-name", ".": "member-name", "::": "enum-item-name",
-              "(": "after-open-paren", ",": "after-comma", "{": "after-open-brace", ";": "after-semicolon", "[": "after-open-bracket",
-              "extern": "after-extern", "catch": "exception-name", "in": "after-in", "=": "after-assign"}
+              "catch": "exception-name"}
 
 
 def token_role(src, k):
@@ -410,9 +411,7 @@ def token_role(src, k):
                     return "param-name"
                 if prev in ROLE_AFTER:
                     return ROLE_AFTER[prev]
-                if prev == "^":
-                    return "first-token"
-                return "in-expression"
+                return "other-position"
     return "position-unknown"
 
 
